@@ -42,7 +42,11 @@ pub fn gen_format(rng: &mut Rng, with_l: bool) -> String {
             _ => {
                 f.push('%');
                 if rng.chance(1, 3) { f.push('-'); }
-                if rng.chance(1, 2) { f.push_str(&rng.range(0, 12).to_string()); }
+                if rng.chance(1, 2) {
+                    // now and then a very wide field (the padding is text like any other)
+                    let w = if rng.chance(1, 30) { *rng.pick(&[255usize, 256, 4096, 65535, 65536, 70000]) } else { rng.range(0, 12) };
+                    f.push_str(&w.to_string());
+                }
                 let mut d = *rng.pick(&DIRS);
                 if d == 'l' && !with_l { d = 'p'; }
                 f.push(d);
